@@ -5,6 +5,10 @@
 # of /repo (/tmp/mt/repo) with the patch applied, so that /repo and /verif stay untouched
 # while other work is building against them.
 set -e
+# one user of /tmp/mt at a time
+if [ -z "$MT_LOCKED" ]; then
+  exec env MT_LOCKED=1 flock /tmp/mt.lock "$0" "$@"
+fi
 PATCH=$(readlink -f "$1"); PID=$2; TIER=${3:-quick}
 mkdir -p /tmp/mt
 if [ ! -d /tmp/mt/repo ]; then git -C /repo worktree add --detach /tmp/mt/repo HEAD >/dev/null 2>&1; fi
